@@ -145,6 +145,13 @@ func runC12(c c12Case) (*vh.Violation, vh.Outcome) {
 
 	model := map[string][]byte{}
 	ids := map[string]vaa.VAAID{}
+	// every identifier is asked for once while nothing is stored under it (a node is asked for VAAs it does not have
+	// yet all the time): what is stored afterwards must be found all the same
+	for _, s := range c.Stores {
+		if _, err := d.GetSignedVAABytes(s.id()); err != db.ErrVAANotFound {
+			return vh.V("C12/absent-id-not-notfound", "GetSignedVAABytes(%s) before anything was stored under it: err=%v", idStr(s.id()), err), out
+		}
+	}
 	for _, s := range c.Stores {
 		v := s.vaa()
 		b, _ := v.Marshal()
